@@ -262,6 +262,18 @@ CLAIMED = {
              "real kernel; obj_pin / obj_get / prog_test_run buffers are not covered.",
         technique="Coq proof over all API operations and map declarations + interposition of the bpf() system call with a buffer-length registry",
         ref="7/C10"),
+    "C09": dict(
+        text="Theorems C09_lookup_update_same, C09_cells_independent, C09_delete (for ALL tables, keys and values: what is stored under a key is found under it; "
+             "every other key - every other hash-map variable - is an independent cell; delete / pop removes exactly that key, absent keys are not found) and "
+             "C09_members_disjoint (structure members of any sizes occupy disjoint bytes). Tie: random hash-map variable sets with defaults and random Structure "
+             "key / value definitions; the REAL Python API (load, defaults, variable get / set, Dict insert / lookup / iteration) runs against a stand-in for "
+             "bpf(); the map contents are handed to the REAL generated program (reads / writes of hash variables, lookups of present and absent keys with member "
+             "reads / writes and Else branch, updates incl. a full map) executed in the Coq ISA model extended with hash-map helper calls, and handed back; "
+             "every value and entry must be what the other side stored.",
+        note=TB + "Partial: the hash-map helper calls of the executable model (coq/Corr/C09.v) are NOT validated against the kernel; deletion from the program "
+             "side and LRU maps are not exercised; no model/implementation correspondence term beyond the oracle (the tie is the exchange of map contents).",
+        technique="Coq proof of the table laws + both real sides (Python API on a bpf() stand-in, generated program in the ISA model with hash maps) on shared map contents",
+        ref="7/C09"),
 }
 
 REASONS_NOT_YET = "no check built yet in this round (planned, see DESIGN.md section 7); nothing is claimed for it"
